@@ -195,6 +195,36 @@ func hashCheckFlag(rel string) func() string {
 	}
 }
 
+// buildCheckFlag: does the external-storage BuildLogLeaf refuse a chain whose extra data cannot be TLS-encoded, before it
+// stores anything? Recognised form (the fix proposed for the C14 "poisoned range" finding), as a top-level statement before
+// the one that calls s.add:  if _, err := util.ExtraDataForChain(raw[0], raw[1:], isPrecert); err != nil { return nil, … }
+func buildCheckFlag(rel string) func() string {
+	return func() string {
+		fd := mustFunc(rel, "indirectIssuanceChainService.BuildLogLeaf")
+		checkAt, addAt := -1, -1
+		for i, st := range fd.Body.List {
+			if is, ok := st.(*ast.IfStmt); ok && is.Init != nil && src(is.Init) == "_, err := util.ExtraDataForChain(raw[0], raw[1:], isPrecert)" {
+				if src(is.Cond) != "err != nil" || is.Else != nil || len(is.Body.List) != 1 || !strings.HasPrefix(src(is.Body.List[0]), "return nil, ") || src(is.Body.List[0]) == "return nil, nil" {
+					failf(is, "unrecognised encoding check")
+				}
+				if checkAt < 0 {
+					checkAt = i
+				}
+			}
+			if addAt < 0 && strings.Contains(src(st), "s.add(ctx, ") {
+				addAt = i
+			}
+		}
+		if addAt < 0 {
+			panic(bail{rel + ": indirect BuildLogLeaf no longer calls s.add"})
+		}
+		if checkAt > addAt {
+			panic(bail{rel + ": the encoding check comes after the chain has been stored"})
+		}
+		return fmt.Sprintf("/-- generated from %s func indirectIssuanceChainService.BuildLogLeaf: before `s.add`, the chain is refused unless\n`util.ExtraDataForChain(raw[0], raw[1:], isPrecert)` (the in-backend extra data) can be encoded -/\ndef indirectBuildChecksEncoding : Bool := %v\n", rel, checkAt >= 0)
+	}
+}
+
 // fixErrorFacts: how the two readers treat a FixLogLeaf failure. rpcGetLeavesByRange: a `for _, leaf := range rsp.Leaves`
 // whose body is exactly `if err := …FixLogLeaf(ctx, leaf); err != nil { return nil, <status>, … }` followed by
 // `return rsp, http.StatusOK, nil`; rpcGetEntryAndProof: the same `if` on rsp.Leaf.
@@ -256,5 +286,6 @@ func init() {
 		{"fixOrder", fixOrder("trillian/ctfe/services.go")},
 		{"getByHashVerifiesHash", hashCheckFlag("trillian/ctfe/services.go")},
 		{"fixErrorFacts", fixErrorFacts("trillian/ctfe/handlers.go")},
+		{"indirectBuildChecksEncoding", buildCheckFlag("trillian/ctfe/services.go")},
 	}})
 }
